@@ -579,22 +579,26 @@ func init() {
 			exited := false
 			var exitErr error
 			t0 := time.Now()
-			for time.Since(t0) < 3*time.Second && !exited {
+			// generous real-time bounds: up to 20 s to come up completely or to exit
+			for time.Since(t0) < 20*time.Second && !exited {
 				select {
 				case exitErr = <-done:
 					exited = true
 				default:
 					time.Sleep(20 * time.Millisecond)
 				}
-				if !exited && time.Since(t0) > 700*time.Millisecond {
+				if !exited {
 					all := true
 					for _, p := range ports {
 						if !listening(p) {
 							all = false
 						}
 					}
-					if all && !expectFail {
+					if all && (!expectFail || time.Since(t0) > 3*time.Second) {
 						break
+					}
+					if !all && expectFail && time.Since(t0) > 8*time.Second {
+						break // it keeps running without one of its listeners
 					}
 				}
 			}
